@@ -637,9 +637,9 @@ func c04ManyFiles(r *vlib.Run) {
 // What is delivered (before, during and after the pause) must be appended
 // lines, each at most once, in the order they were appended.
 func c04Interrupt(r *vlib.Run) {
-	n := r.N(3, 12)
+	n := r.N(5, 16)
 	dir, _ := filepath.EvalSymlinks(r.Dir("c04int"))
-	vlib.Parallel(n, 4, func(i int) {
+	vlib.Parallel(n, 5, func(i int) {
 		path := filepath.Join(dir, fmt.Sprintf("i%d.log", i))
 		os.WriteFile(path, []byte("OLD-0 keep\nOLD-1 keep\n"), 0644)
 		defer os.Remove(path)
